@@ -80,6 +80,26 @@ type vTO2World struct {
 	cred   DeviceCredential
 }
 
+// vRvMode selects what rendezvous info the new owner assigns: 0 different, 1 unchanged, 2 empty
+var vRvMode int
+
+func vSameRvInfo(a, b [][]protocol.RvInstruction) bool {
+	if len(a) != len(b) {
+		return false
+	}
+	for i := range a {
+		if len(a[i]) != len(b[i]) {
+			return false
+		}
+		for j := range a[i] {
+			if a[i][j].Variable != b[i][j].Variable || !bytes.Equal(a[i][j].Value, b[i][j].Value) {
+				return false
+			}
+		}
+	}
+	return true
+}
+
 func vMkTO2World(kind int, reuse bool) *vTO2World {
 	t := &vTO2World{}
 	c := &vC08{w: newVWorld()}
@@ -92,6 +112,12 @@ func vMkTO2World(kind int, reuse bool) *vTO2World {
 	c.w.store.ownerKeys[ov.Header.Val.ManufacturerKey.Type] = c.owner
 	srv := &TO2Server{Session: c.w, Modules: &vModules{c.w}, Vouchers: c.w, OwnerKeys: c.w,
 		RvInfo: func(context.Context, Voucher) ([][]protocol.RvInstruction, error) {
+			switch vRvMode {
+			case 1: // the same directives the device already has
+				return ov.Header.Val.RvInfo, nil
+			case 2: // none
+				return [][]protocol.RvInstruction{}, nil
+			}
 			return [][]protocol.RvInstruction{{{Variable: protocol.RVDns, Value: []byte{0x61, 0x6f}}}}, nil
 		}}
 	if reuse {
@@ -126,17 +152,24 @@ func vCheckAgreement(v *Voucher, cred *DeviceCredential, secret []byte, what str
 	verif.Assert(v.VerifyCertChainHash() == nil, what+": device certificate hash verifies")
 	verif.Assert(v.VerifyEntries() == nil, what+": entries verify")
 	verif.Assert(v.Header.Val.GUID == cred.GUID, what+": GUID agrees")
-	verif.Assert(verif.DeepEq(v.Header.Val.RvInfo, cred.RvInfo), what+": rendezvous info agrees")
+	verif.Assert(vSameRvInfo(v.Header.Val.RvInfo, cred.RvInfo), what+": rendezvous info agrees")
 	verif.Assert(verif.StrEq(v.Header.Val.DeviceInfo, cred.DeviceInfo), what+": device info agrees")
 }
 
 // A complete TO2 between the real device code and the real owner responder.
 func VerifC03_TO2Agreement() {
 	verif.NoPanic()
-	verif.Bound("C03 TO2", "device/owner/manufacturer key kind in {P-256, P-384}; voucher with one entry; one owner module that finishes immediately, no device modules; honest run over a loopback transport (one cooperative schedule); all key material, secrets, GUIDs, nonces symbolic")
+	verif.Bound("C03 TO2", "device/owner/manufacturer key kind in {P-256, P-384}; voucher with one entry; one owner module that finishes immediately, no device modules; the new owner assigns different / the same / no rendezvous directives; honest run over a loopback transport (one cooperative schedule); all key material, secrets, GUIDs, nonces symbolic")
 	kind := verif.Choose("kind", 2)
+	vRvMode = verif.Choose("rvmode", 3)
 	t := vMkTO2World(kind, false)
 	cred, err := TO2(context.Background(), t.loop, nil, t.cfg)
+	vRvMode = 0
+	// the owner's random replacement GUID coinciding with the current GUID (probability 2^-128)
+	// would turn an unchanged-directives handover into a credential-reuse request
+	if rs := t.c.w.sessions["T1"]; rs != nil && rs.replGUID != nil {
+		verif.AssumeMsg(*rs.replGUID != t.c.guid, "the random replacement GUID differs from the device's current GUID")
+	}
 	verif.Assert(err == nil, "honest TO2 succeeds")
 	verif.Assert(cred != nil, "and returns a replacement credential")
 	verif.Assert(t.c.w.count("ReplaceVoucher") == 1, "the owner replaced the voucher exactly once")
@@ -253,4 +286,35 @@ func VerifC03_DIAgreement() {
 	verif.Assert(ok, "under the credential's GUID")
 	vCheckAgreement(v, cred, secret, "after DI")
 	verif.Reached("end")
+}
+
+// a storage fault (an error other than "not found") at any single session-state
+// access of the owner service never leaves device and owner in disagreement
+func VerifC03_StateFault() {
+	verif.NoPanic()
+	verif.SetGhost("clock-concrete", 1) // time plays no role here (error messages carry a timestamp)
+	verif.Bound("C03 fault", "P-256; the k-th session-state access of the owner service during TO2 fails with a non-NotFound error, k = 1..60 (covers every access of a run) or none")
+	t := vMkTO2World(vcP256, false)
+	t.c.w.stCalls = 0
+	t.c.w.faultAt = verif.Choose("faultat", 61)
+	before := t.c.w.store.vouchers[t.c.guid]
+	cred, err := TO2(context.Background(), t.loop, nil, t.cfg)
+	if t.c.w.faultAt == 0 {
+		verif.Assert(t.c.w.stCalls <= 60, "the fault positions cover every session-state access of a run")
+	}
+	if err == nil {
+		verif.Assert(cred != nil, "a TO2 without credential reuse that succeeds returns a credential")
+		nv, ok := t.c.w.store.vouchers[cred.GUID]
+		verif.Assert(ok && t.c.w.count("ReplaceVoucher") == 1, "a returned credential has its replacement voucher stored by the owner")
+		if ok {
+			vCheckAgreement(nv, cred, t.secret, "after a run with a storage fault")
+		}
+		verif.Reached("succeeded")
+	} else {
+		verif.Assert(cred == nil, "a failed TO2 returns no credential")
+		if !t.loop.doneAccepted {
+			verif.Assert(t.c.w.count("ReplaceVoucher") == 0 && t.c.w.store.vouchers[t.c.guid] == before, "before the owner accepted Done its voucher store is unchanged")
+		}
+		verif.Reached("failed")
+	}
 }
